@@ -19,7 +19,7 @@ def nontriv(c, m):
 
 INFO, run, replay = sessprop.make(
     'C06', ['out.msg', 'out.cmd*', 'final.ctrl.all', 'final.conn.count', 'final.ctrl.matchers', 'final.ctrl.current', 'final.conns'],
-    ['Proofs/ControllerProofs.v', 'Proofs/SessionProofs.v'],
+    ['Proofs/ControllerProofs.v', 'Proofs/SessionProofs.v', 'Proofs/StreamSpecA.v'],
     ['theorems are about WD.Session.ctrl_on_message / crun (controller-level events) and process_command; tied to frontends/tui/controller.py by sessions with -f filters, `filter`/`connection` commands injected between lines, comparing per input line exactly which message lines appear and the final all_messages / Connection.messages() records'],
     'C06_shown_exact / C06_commands_keep_record', gen, nontriv,
     'generated multi-connection sessions (20-50 lines) with a -f filter in half of them and filter/connection/list/breakpoint commands injected between lines; non-trivial = session with a filter or a filter/connection command; distinct by input')
